@@ -422,3 +422,43 @@ func vh_C01_toPtr() {
 	})
 	vfReach("end")
 }
+
+// a pointer type with a String method that tolerates a nil receiver: an ABSENT Maybe of that type still renders as
+// "<nil>" (one notion of absence for every observer), a present one renders through the method
+type c01Tag struct{ n int }
+
+func (t *c01Tag) String() string {
+	if t == nil {
+		return "nil-tag"
+	}
+	return "tag"
+}
+
+func vh_C01_StringerPointer() {
+	var p *c01Tag
+	present := vfChoose("pointer", 2) == 1
+	if present {
+		p = &c01Tag{vfInt("n")}
+	}
+	var texts []string
+	var nils []bool
+	ok := vfNoPanic("nopanic", func() {
+		g := JustGenerics[*c01Tag](p)
+		gi := JustGenerics[interface{}](p)
+		j := Maybe.Just(p)
+		texts = []string{g.ToString(), gi.ToString(), j.ToString()}
+		nils = []bool{g.IsNil(), gi.IsNil(), j.IsNil()}
+	})
+	if !ok {
+		return
+	}
+	for i, pfx := range []string{"G-", "GI-", "J-"} {
+		vfAssert(pfx+"isnil", nils[i] == !present)
+		if present {
+			vfAssert(pfx+"tostring-present", texts[i] == "tag")
+		} else {
+			vfAssert(pfx+"tostring-nil", texts[i] == "<nil>")
+		}
+	}
+	vfReach("end")
+}
